@@ -14,7 +14,7 @@ def cell(s, n):
 def main():
     rows = []
     tot = det = inp = 0
-    for d in sorted(ROOT.iterdir(), key=lambda p: (p.name.split("-")[0], p.name.split("-")[1])):
+    for d in sorted((x for x in ROOT.iterdir() if x.is_dir() and "-" in x.name), key=lambda p: tuple(p.name.split("-")[:2])):
         mp = d / "meta.json"
         if not mp.exists():
             continue
